@@ -319,8 +319,12 @@ type chkOut struct {
 }
 
 func runSolver(solver string, script string, overallMS int) (map[int]chkOut, string, error) {
+	return runSolverCtx(context.Background(), solver, script, overallMS)
+}
+
+func runSolverCtx(parent context.Context, solver string, script string, overallMS int) (map[int]chkOut, string, error) {
 	var cmd *exec.Cmd
-	ctx, cancel := context.WithTimeout(context.Background(), time.Duration(overallMS)*time.Millisecond)
+	ctx, cancel := context.WithTimeout(parent, time.Duration(overallMS)*time.Millisecond)
 	defer cancel()
 	switch solver {
 	case "z3":
@@ -421,7 +425,10 @@ func (x *Exec) solve(res *FnResult, opt Options) {
 	var mu sync.Mutex
 	var insts []inst
 	var wg sync.WaitGroup
-	sem := make(chan struct{}, opt.Workers)
+	sem := solverSem
+	if sem == nil {
+		sem = make(chan struct{}, opt.Workers)
+	}
 	for _, j := range jobs {
 		wg.Add(1)
 		sem <- struct{}{}
@@ -430,10 +437,15 @@ func (x *Exec) solve(res *FnResult, opt Options) {
 			defer func() { <-sem }()
 			t0 := time.Now()
 			primary := "z3"
+			var out map[int]chkOut
+			var raw string
+			var serr error
 			if x.cx.bv {
 				primary = "z3-new"
+				out, raw, serr = runSolver(primary, j.script, opt.TimeoutMS*len(j.refs)+20000)
+			} else {
+				out, raw, primary, serr = raceSolvers([]string{"z3", "z3-new"}, j.script, j.refs, opt.TimeoutMS*len(j.refs)+20000)
 			}
-			out, raw, serr := runSolver(primary, j.script, opt.TimeoutMS*len(j.refs)+20000)
 			if serr != nil {
 				mu.Lock()
 				if res.Err == "" {
@@ -476,16 +488,13 @@ func (x *Exec) solve(res *FnResult, opt Options) {
 					continue
 				}
 				s := x.compose(prelude, x.paths[in.ref.path], in.ref.idx, opt.TimeoutMS, nil, in.ref.path)
-				for _, sv := range []string{"z3-new", "cvc5", "z3"} {
-					t1 := time.Now()
-					o2, raw2, _ := runSolver(sv, s, opt.TimeoutMS+10000)
-					if c, ok := o2[in.ref.idx]; ok && (c.status == "unsat" || c.status == "sat") {
-						in.status = c.status
-						in.solver = sv
-						in.ms = time.Since(t1).Milliseconds()
-						in.rest = raw2
-						break
-					}
+				t1 := time.Now()
+				o2, raw2, sv, _ := raceSolvers([]string{"z3-new", "cvc5", "z3"}, s, []checkRef{in.ref}, opt.TimeoutMS+10000)
+				if c, ok := o2[in.ref.idx]; ok && (c.status == "unsat" || c.status == "sat") {
+					in.status = c.status
+					in.solver = sv
+					in.ms = time.Since(t1).Milliseconds()
+					in.rest = raw2
 				}
 			}
 			mu.Lock()
@@ -583,6 +592,48 @@ func (x *Exec) feasible(st *State, cond string) bool {
 		return false
 	}
 	return true
+}
+
+// solverSem bounds the number of solver processes of the whole run (all functions verified concurrently share it).
+var solverSem chan struct{}
+
+// raceSolvers runs the script on several solvers at once and returns the first result in which every check is decided
+// (unsat/sat); if none is, the result with the most decided checks.
+func raceSolvers(solvers []string, script string, refs []checkRef, overallMS int) (map[int]chkOut, string, string, error) {
+	type res struct {
+		out    map[int]chkOut
+		raw    string
+		solver string
+		err    error
+		n      int
+	}
+	ch := make(chan res, len(solvers))
+	ctx, cancel := context.WithCancel(context.Background())
+	defer cancel()
+	for _, sv := range solvers {
+		go func(sv string) {
+			out, raw, err := runSolverCtx(ctx, sv, script, overallMS)
+			n := 0
+			for _, r := range refs {
+				if o, ok := out[r.idx]; ok && (o.status == "unsat" || o.status == "sat") {
+					n++
+				}
+			}
+			ch <- res{out, raw, sv, err, n}
+		}(sv)
+	}
+	var best *res
+	for range solvers {
+		r := <-ch
+		if r.n == len(refs) {
+			return r.out, r.raw, r.solver, nil
+		}
+		if best == nil || r.n > best.n || (r.n == best.n && best.err != nil && r.err == nil) {
+			rr := r
+			best = &rr
+		}
+	}
+	return best.out, best.raw, best.solver, best.err
 }
 
 type probe struct {
